@@ -33,6 +33,103 @@ def _range_classes():
     return out
 
 
+NATIVES = {
+    "NpmVersionRange": ["*", "^1.2.3", "~1.2", "1.x", ">=1.0.0 <2.0.0", "1.2.3 - 2.3.4", "<1.0.0 || >=2.0.0", "1.2.3"],
+    "NginxVersionRange": ["all", "1.2.3", "1.1.0-1.2.0", "1.5.0+", "1.5.10+, 1.4.7+"],
+    "GemVersionRange": ["~> 2.1", ">= 1.0, < 3", "= 1.0", "!= 1.5, >= 1.0"],
+    "PypiVersionRange": [">=1.0,<2.0", "==1.0", "!=1.5,>=1.0", "<=3"],
+    "MavenVersionRange": ["[1.0,2.0)", "[1.0]", "(,1.0],[1.2,)", "[1.5,)", "[3.0]", "[1.0.0,2.0.0]"],
+    "NugetVersionRange": ["[1.0,2.0)", "[1.0]", "(,1.0],[1.2,)", "[1.5,)", "[3.0]", "[1.0.0,2.0.0]"],
+    "ConanVersionRange": ["~1.2", "^1.2.3", ">=1.0 <2.0", "1.0 || 2.0", ">1.0"],
+    "DebianVersionRange": [">= 1.0", "<< 2.0-1", "= 1.0"],
+    "RpmVersionRange": [">= 1.0", "< 2.0-1", "= 1.0"],
+    "OpensslVersionRange": ["1.0.1a, 1.0.2b", "3.0.0", "1.1.1k, 3.0.1"],
+}
+
+
+def _roundtrip_clauses(rc, r):
+    """the clauses of the property on one range object; returns the first that fails"""
+    text = str(r)
+    back = VersionRange.from_string(text)
+    if type(back) is not type(r):
+        return "parsed range has type %s, the original %s" % (type(back).__name__, type(r).__name__), text
+    if not (back == r):
+        return "parsed range is not equal to the original", text
+    if str(back) != text:
+        return "printing again gives %r" % str(back), text
+    d = r.to_dict()
+    want = [dict(comparator=c.comparator, version=str(c.version)) for c in r.constraints]
+    if d.get("scheme") != rc.scheme or d.get("constraints") != want:
+        return "to_dict does not carry the same scheme/comparators/version texts", text
+    return None, text
+
+
+def _other_routes(ctx):
+    """ranges that did not come from the plain constructor or the parser: the everything range built by hand and by the
+    native converters, from_native / from_natives of every class that has them (also as inherited by a subclass),
+    from_versions, invert, normalize.  Each must print, parse back to an equal range of the same type, print again
+    identically and carry the same dictionary form."""
+    for rc in _range_classes():
+        if not isinstance(rc.scheme, str) or rc.version_class is None:
+            continue
+        stream = "routes:" + rc.scheme
+        made = []
+        def add(label, f):
+            try:
+                r = f()
+            except Exception:  # noqa: BLE001 — a route that is not offered for this class, or refuses the input
+                return
+            if isinstance(r, VersionRange):
+                made.append((label, r))
+        add("star constraint by hand", lambda: rc(constraints=[VersionConstraint(comparator="*", version_class=rc.version_class)]))
+        add("from_string star", lambda: VersionRange.from_string("vers:%s/*" % rc.scheme))
+        for e in NATIVES.get(rc.__name__, []):
+            add("from_native(%r)" % e, lambda e=e: rc.from_native(e))
+            add("from_natives([%r])" % e, lambda e=e: rc.from_natives([e]))
+            add("from_natives(%r)" % e, lambda e=e: rc.from_natives(e))
+        exprs = NATIVES.get(rc.__name__, [])
+        if len(exprs) >= 2:
+            add("from_natives(%r)" % exprs[1:3], lambda: rc.from_natives(exprs[1:3]))
+        gname = CT.gen_name_of(rc.version_class)
+        rng = ctx.rng("c05-routes", rc.__name__)
+        texts = []
+        for _ in range(40):
+            try:
+                s, v = S.gen_valid(gname, rng)
+                v = rc.version_class(s)
+                w = rc.version_class(str(v))
+            except Exception:  # noqa: BLE001
+                continue
+            if _safe(str(v)) and w == v and str(w) == str(v):
+                texts.append(s)
+            if len(texts) >= 6:
+                break
+        if len(texts) >= 3:
+            add("from_versions", lambda: rc.from_versions(texts[:3]))
+            add("from_versions (12, repeated)", lambda: rc.from_versions((texts * 4)[:12]))
+            base = None
+            try:
+                vs = sorted(rc.version_class(t) for t in texts[:3])
+                base = rc(constraints=[VersionConstraint(comparator=">=", version=vs[0]), VersionConstraint(comparator="<", version=vs[-1])])
+            except Exception:  # noqa: BLE001
+                pass
+            if base is not None:
+                add("invert", lambda: base.invert())
+                add("invert twice", lambda: base.invert().invert())
+                add("normalize", lambda: base.normalize(texts))
+        for label, r in made:
+            ctx.count(stream, key=label, nontrivial=len(r.constraints) >= 2, branch=label.split("(")[0])
+            try:
+                why, text = _roundtrip_clauses(rc, r)
+            except Exception as e:  # noqa: BLE001
+                why, text = "parsing the printed text raises %s: %s" % (type(e).__name__, e), common.safe(lambda: str(r))
+            if why and any(("None" in str(c)) for c in r.constraints):
+                continue    # maven/nuget soft requirement, K07
+            if why:
+                ctx.disagree(stream, "%s %s" % (rc.__name__, label), why, "round trip", True,
+                             {"range_class": rc.__name__, "route": label, "text": text, "clause": why}, spec="round trip")
+
+
 def correspondence(ctx):
     n = 40000 if ctx.thorough else 2500
     T.run_corr(ctx, "corr_textvers", "vers-text", n)
@@ -128,4 +225,5 @@ def correspondence(ctx):
                              {"range_class": rc.__name__, "text": text, "clause": why, "versions_whose_text_does_not_roundtrip": sorted(weak),
                               "python": "from univers.version_range import VersionRange as R; r=R.from_string(%r); print(str(r))" % text},
                              region=region, spec="round trip")
+    _other_routes(ctx)
     ctx.sample({"text": "vers:npm/>=1.0.0|<2.0.0", "roundtrip": common.safe(lambda: VersionRange.from_string("vers:npm/>=1.0.0|<2.0.0"))})
